@@ -38,7 +38,7 @@ type State struct {
 	vars   map[types.Object]Val
 	heap   map[string]Val // "H:<sort>" heaps, "G:<ghost>", "V:<global>", "top"
 	defers []deferred
-	held   map[string]bool // locks held (C18), keyed by lvalue text
+	held   map[string]bool // locks held (C18), keyed by lvalue text; key+"#w" marks a write lock
 }
 
 func (s *State) clone() *State {
@@ -102,6 +102,7 @@ type Exec struct {
 	inRes    [][]*types.Var
 	spawns   bool
 	safety   bool
+	lvWrite  bool // the lvalue being resolved is the target of a write
 	rawByCall map[*ast.CallExpr][]Val
 	rawArgs  []Val          // arguments of the call being evaluated, before conversion to the parameter types
 	curRaw   map[string]Val // the same, by contract parameter name
@@ -885,7 +886,9 @@ func (x *Exec) execAssign(st *State, s *ast.AssignStmt) {
 				}
 			}
 		}
+		x.lvWrite = true
 		lv := x.lvOf(st, l)
+		x.lvWrite = false
 		v := x.convertTo(st, vals[i], x.typeOf(l))
 		x.storeLV(st, lv, v)
 	}
